@@ -178,7 +178,7 @@ const THREAD_STRIDE: u64 = 64;
 const FAILED_STRIDE: u64 = 4;
 
 /// worker: `pgmc c14-worker <quick|thorough> <outfile>`: (digest, flags) per state, preceded by the order probe
-pub fn c14_worker(args: &[String]) -> i32 {
+fn maybe_pin() {
     if std::env::var_os("PGMC_PIN_ONE_CPU").is_some() {
         // SAFETY: plain libc call on this process; failure is ignored (the process then simply is not pinned)
         unsafe {
@@ -187,6 +187,10 @@ pub fn c14_worker(args: &[String]) -> i32 {
             let _ = libc::sched_setaffinity(0, std::mem::size_of::<libc::cpu_set_t>(), &set);
         }
     }
+}
+
+pub fn c14_worker(args: &[String]) -> i32 {
+    maybe_pin();
     let thorough = args.first().map(|s| s == "thorough").unwrap_or(false);
     let out = args.get(1).cloned().unwrap_or_default();
     let mut w = std::io::BufWriter::new(std::fs::File::create(&out).expect("create out"));
@@ -208,6 +212,7 @@ pub fn c14_worker(args: &[String]) -> i32 {
 
 /// `pgmc c14-one <case.json>`: print "<flags> <hex of the cache bytes>" for one state
 pub fn c14_one(args: &[String]) -> i32 {
+    maybe_pin();
     let txt = std::fs::read_to_string(args.first().map(|s| s.as_str()).unwrap_or("")).unwrap_or_default();
     let v: Value = serde_json::from_str(&txt).unwrap_or(Value::Null);
     let case = if v.get("case").is_some() { v["case"].clone() } else { v };
@@ -369,6 +374,11 @@ pub fn recheck_c14(case: &Value) -> Vec<String> {
     for seed in 1..=8u64 {
         let mut c = std::process::Command::new(&exe);
         c.args(["c14-one", &path]).env("PGMC_CHILD", "1");
+        if seed == 2 {
+            c.env("PGMC_PIN_ONE_CPU", "1");
+        } else {
+            c.env_remove("PGMC_PIN_ONE_CPU");
+        }
         if let Some(shim) = shim_path() {
             c.env("LD_PRELOAD", shim).env("PGMC_HASH_SEED", seed.to_string());
         }
